@@ -380,7 +380,7 @@ def gen_specs(rng, thorough=False):
 
     for s in predef_specs():
         add(s['dim'], s['code'], s['group'], 'base', shipped=s['shipped'])
-    ntok = 40 if thorough else 14
+    ntok = 40 if thorough else 10
     for k, tp in enumerate(TEMPLATES):
         dim, expr, args, bfuns = tp[:4]
         p = {'dim': dim, 'expr': expr, 'args': args, 'bfuns': bfuns, 'boundary': len(tp) > 4 and tp[4], 'updatable': []}
@@ -402,7 +402,7 @@ def gen_specs(rng, thorough=False):
                 b2 = dict(base)
                 b2[n] = v
                 add(int(b2.get('d', dim)), tmpl.format(**b2), grp, kinds[n])
-    nrand = 160 if thorough else 36
+    nrand = 160 if thorough else 28
     for k in range(nrand):
         p = random_parse_spec(rng)
         grp = 'rand%d' % k
